@@ -706,3 +706,115 @@ def reachable_panics(a, checks=True):
             if not (p[0] == "P" and q[0] == "P" and p[3] is not None and q[3] is not None and _prove(("==", p[3] - q[3]), pf)):
                 out.append("%s with equal lengths not shown at %s" % (fn.split("::")[-1], c.at))
     return sorted(set(out))
+
+
+# ---- derived views of sized objects stay inside them (sweep) -------------------------------------------
+
+def check_derived_views(ctx, cfg, rule="C01.V"):
+    """Every reference the crate manufactures from a raw pointer into a SIZED object it was handed by reference - `&*(p as *const X)` with p
+    derived from `&GenericArray<T, N>` / `&[T; k]` / a slice parameter - covers bytes of that object only: 0 <= offset and
+    offset + size_of::<X>() <= size of the object, under the guards that dominate the reborrow. Swept over every body of the crate (closures
+    included: an upvar pointer is the parent's pointer, and the argument of a closure mapped over `lo..hi` lies in [lo, hi)); sites that are
+    the whole object at offset 0 are trivial. A site that cannot be proved is reported: a new windowed / strided / chunked view whose count
+    is off by one reaches past the array for the lengths where it matters (K > N), which no test with K <= N sees."""
+    from .poly import prove
+    from .ownership import find_in
+    db = ctx.db(cfg)
+    n = nontrivial = 0
+
+    def resolve(a, b, ptr):
+        base = ptr[1]
+        e = a.base_extent(base)
+        if e is not None:
+            return e, Poly.const(0), None
+        if b["kind"] == "Closure" and base[0] == "obj" and isinstance(base[1], tuple) and base[1][0] == "cell" and base[1][1][0] == ("arg", 1) and len(base[1][1][1]) == 1:
+            k = base[1][1][1][0]
+            parent = db.by_path.get(b["root"])
+            if parent is None:
+                return None
+            ap = ctx.analysis(cfg, parent["key"])
+            aggs = [g for g in ap.aggregates if isinstance(g["kind"], tuple) and g["kind"][0] == "closure" and g["kind"][1] == b["path"]]
+            if len(aggs) != 1 or k >= len(aggs[0]["ops"]):
+                return None
+            op = aggs[0]["ops"][k]
+            if op[0] != "P":
+                return None
+            pe = ap.base_extent(op[1])
+            if pe is None:
+                return None
+            return pe, op[2], (ap, aggs[0])
+        return None
+
+    def arg_range(b, ap):
+        cpath = b["path"]
+
+        def is_map(t):
+            return (isinstance(t, tuple) and len(t) == 5 and t[:3] == ("V", "iter", "map") and isinstance(t[4], tuple) and t[4] and t[4][0] == "A"
+                    and isinstance(t[4][1], tuple) and t[4][1][:2] == ("closure", cpath))
+        ms = []
+        for c in ap.calls:
+            if c.ret is not None:
+                ms += find_in(c.ret, is_map)
+        out = []
+        if ms and all(m == ms[0] for m in ms):
+            src = ms[0][3]
+            if isinstance(src, tuple) and len(src) == 3 and src[0] == "A" and isinstance(src[1], tuple) and src[1][:2] == ("adt", "core::ops::Range") and src[2][0][0] == "I" and src[2][1][0] == "I":
+                x = Poly.atom(("arg", 2))
+                out += [(">=", x - src[2][0][1]), (">=", src[2][1][1] - x - Poly.const(1))]
+        return out
+    for b in db.bodies:
+        if b["kind"] not in ("Fn", "AssocFn", "Closure") or ctx.is_helper(cfg, b):
+            continue
+        if not any(s_.get("k") == "assign" and s_["rv"].get("k") in ("ref", "rawptr") and s_["rv"]["p"]["p"] and s_["rv"]["p"]["p"][-1] == "*" for blk in b["mir"]["blocks"] for s_ in blk["stmts"]):
+            continue
+        a = ctx.analysis(cfg, b["key"])
+        sites = []
+        for i, d in enumerate(a.derefs):
+            p_ = d["ptr"]
+            if not d.get("ref") or p_[0] != "P":
+                continue
+            r = resolve(a, b, p_)
+            if r is None:
+                continue
+            ext, off0, par = r
+            pt = d["pointee"]
+            if pt.get("k") == "slice":
+                if p_[3] is None:
+                    continue
+                size = p_[3] * a.tenv.size(pt["t"])
+            else:
+                size = a.tenv.size(pt)
+            if size is None:
+                continue
+            sites.append((i, d, ext, p_[2] + off0, size, par, pt))
+        for i, d, ext, off, size, par, pt in sites:
+            n += 1
+            if not off.t and size == ext:
+                continue   # the whole object
+            nontrivial += 1
+            pf = a.poly_facts(d["facts"])
+            if par is not None:
+                pf = pf + arg_range(b, par[0]) + par[0].poly_facts(par[1].get("facts", frozenset()))
+            ok = prove((">=", off), pf) and prove((">=", ext - off - size), pf)
+            if not ok:
+                # compare in elements instead of bytes when offset, size and extent are all multiples of one element size S: for S > 0 the
+                # inequality in bytes is the inequality in elements, for S == 0 all three are 0 and the view is trivially inside
+                def div_atom(q, at_):
+                    out = {}
+                    for mono, c_ in q.t.items():
+                        if at_ not in mono:
+                            return None
+                        m2 = list(mono)
+                        m2.remove(at_)
+                        out[tuple(m2)] = out.get(tuple(m2), 0) + c_
+                    return Poly(out)
+                for at_ in sorted({x_ for x_ in ext.atoms() if isinstance(x_, tuple) and x_ and x_[0] == "S"}, key=repr):
+                    o2, s2, e2 = div_atom(off, at_), div_atom(size, at_), div_atom(ext, at_)
+                    if o2 is not None and s2 is not None and e2 is not None and prove((">=", o2), pf) and prove((">=", e2 - o2 - s2), pf):
+                        ok = True
+                        break
+            from .tys import tstr as _ts
+            ctx.ob(rule, "%s#view#%d" % (b["key"], i), ok, "reference to %s manufactured at byte offset %r of an object of %r bytes; inside the object under the dominating guards%s: %s" % (
+                _ts(pt), off, ext, " and the range of the closure's argument" if par is not None else "", ok), at=b["at"], cfg=cfg, frozen=False)
+    ctx.ob(rule, "sweep (%s)" % cfg, n >= 3, "reborrows of pointers into sized objects handed in by reference: %d, of which %d view a part of the object or a differently sized type" % (n, nontrivial), cfg=cfg)
+    return n
